@@ -75,15 +75,15 @@ var c30PhaseName = [c30NPhases]string{"sdp-fresh", "sdp-live", "candidates", "pa
 func c30PhaseSize(ph int) (n, chunk int) {
 	switch ph {
 	case c30PhFresh:
-		return kit.N(10000, 200000), 500
+		return kit.N(10000, 120000), 500
 	case c30PhLive:
-		return kit.N(480, 8000), 8 // x ~6.5 descriptions applied per case
+		return kit.N(480, 5000), 8 // x ~6.5 descriptions applied per case
 	case c30PhCand:
 		return kit.N(400, 4000), 16 // x 50 candidates per case
 	case c30PhPacket:
 		return kit.N(48, 600), 2 // x ~110 packets per case
 	default:
-		return kit.N(36, 360), 3
+		return kit.N(46, 460), 3
 	}
 }
 
@@ -104,12 +104,12 @@ type c30Rec struct {
 // ---------------------------------------------------------------- crash text analysis (shared by both paths)
 
 var (
-	c30ReFrameFn = regexp.MustCompile(`^([^\s].*)\(.*\)$`)                          //nolint:gochecknoglobals
-	c30ReFrameAt = regexp.MustCompile(`^\s+(\S+\.go):(\d+)`)                       //nolint:gochecknoglobals
-	c30ReDigits  = regexp.MustCompile(`[0-9]+`)                                    //nolint:gochecknoglobals
-	c30ReHexArg  = regexp.MustCompile(`0x[0-9a-f]+`)                               //nolint:gochecknoglobals
-	c30ReQuoted  = regexp.MustCompile("\"[^\"]*\"|`[^`]*`|'[^']*'")                //nolint:gochecknoglobals
-	c30RePanicLn = regexp.MustCompile(`(?m)^(panic: .*|fatal error: .*)$`)         //nolint:gochecknoglobals
+	c30ReFrameFn = regexp.MustCompile(`^([^\s].*)\(.*\)$`)                                          //nolint:gochecknoglobals
+	c30ReFrameAt = regexp.MustCompile(`^\s+(\S+\.go):(\d+)`)                                        //nolint:gochecknoglobals
+	c30ReDigits  = regexp.MustCompile(`[0-9]+`)                                                     //nolint:gochecknoglobals
+	c30ReHexArg  = regexp.MustCompile(`0x[0-9a-f]+`)                                                //nolint:gochecknoglobals
+	c30ReQuoted  = regexp.MustCompile("\"[^\"]*\"|`[^`]*`|'[^']*'")                                 //nolint:gochecknoglobals
+	c30RePanicLn = regexp.MustCompile(`(?m)^(panic: .*|fatal error: .*)$`)                          //nolint:gochecknoglobals
 	c30ReCreated = regexp.MustCompile(`(?m)^created by (\S+) in goroutine \d+\n\s+(\S+\.go):(\d+)`) //nolint:gochecknoglobals
 )
 
@@ -288,17 +288,17 @@ type c30Chunk struct{ Phase, Lo, Hi int }
 func (c c30Chunk) String() string { return fmt.Sprintf("%d:%d:%d", c.Phase, c.Lo, c.Hi) }
 
 type c30Parent struct {
-	run     *kit.Run
-	dir     string
-	exe     string
-	mu      sync.Mutex
-	flight  map[string]c30Chunk
-	samples map[int]int
-	confirm map[string]int
-	spawned int
+	run      *kit.Run
+	dir      string
+	exe      string
+	mu       sync.Mutex
+	flight   map[string]c30Chunk
+	samples  map[int]int
+	confirm  map[string]int
+	spawned  int
 	phaseSec [c30NPhases]float64
-	crashes int
-	timeout time.Duration
+	crashes  int
+	timeout  time.Duration
 }
 
 func TestVerifC30(t *testing.T) {
@@ -622,4 +622,113 @@ func c30CrashHead(out string) string {
 	}
 
 	return s
+}
+
+// ---------------------------------------------------------------- native fuzz targets (optional, not run by ./check)
+//
+//	go test -overlay <overlay> -tags verif -run '^$' -fuzz '^FuzzVerifC30SDP$' -fuzztime 5m .
+//
+// The fuzzing engine runs workers in their own processes and saves a crashing input under testdata/fuzz.
+
+func c30FuzzApply(sem SDPSemantics, role uint8, text string) {
+	pc := c30NewPC(c30PCOpt{Sem: sem, Icpt: 1})
+	defer func() {
+		_ = pc.Close()
+		c30SoftDrain(pc, 5*time.Second)
+	}()
+	switch role % 3 {
+	case 0:
+		_ = pc.SetRemoteDescription(SessionDescription{Type: SDPTypeOffer, SDP: text})
+		if ans, err := pc.CreateAnswer(nil); err == nil {
+			_ = pc.SetLocalDescription(ans)
+		}
+	default:
+		_, _ = pc.AddTransceiverFromKind(RTPCodecTypeVideo)
+		_, _ = pc.AddTransceiverFromKind(RTPCodecTypeAudio)
+		_, _ = pc.CreateDataChannel("f", nil)
+		if off, err := pc.CreateOffer(nil); err == nil && pc.SetLocalDescription(off) == nil {
+			typ := SDPTypeAnswer
+			if role%3 == 2 {
+				typ = SDPTypePranswer
+			}
+			_ = pc.SetRemoteDescription(SessionDescription{Type: typ, SDP: text})
+		}
+	}
+	time.Sleep(time.Millisecond)
+}
+
+func FuzzVerifC30SDP(f *testing.F) {
+	for i, l := range append(append([]c30Literal{}, c30RepoLiterals...), c30BrowserLiterals...) {
+		f.Add(uint8(i), uint8(i/3), c30Complete(l.SDP)) //nolint:gosec
+	}
+	f.Fuzz(func(_ *testing.T, sem, role uint8, text string) {
+		c30FuzzApply(c30Sems[int(sem)%len(c30Sems)], role, text)
+	})
+}
+
+func FuzzVerifC30Candidate(f *testing.F) {
+	for _, s := range c30CandValid {
+		f.Add(s, "0", true)
+	}
+	offer := c30Complete(c30BrowserLiterals[0].SDP)
+	f.Fuzz(func(_ *testing.T, cand, mid string, withMid bool) {
+		pc := c30NewPC(c30PCOpt{Sem: SDPSemanticsUnifiedPlan})
+		defer func() { _ = pc.Close() }()
+		_ = pc.SetRemoteDescription(SessionDescription{Type: SDPTypeOffer, SDP: offer})
+		init := ICECandidateInit{Candidate: cand}
+		if withMid {
+			init.SDPMid = &mid
+		}
+		_ = pc.AddICECandidate(init)
+	})
+}
+
+var c30FuzzPair struct { //nolint:gochecknoglobals
+	once sync.Once
+	rtp  interface{ Write([]byte) (int, error) }
+	rtcp interface{ Write([]byte) (int, error) }
+	seq  uint16
+	mu   sync.Mutex
+}
+
+func FuzzVerifC30RTP(f *testing.F) {
+	f.Add([]byte{0x90, 96, 0, 1, 0, 0, 0, 1, 0, 0, 0, 9, 0xBE, 0xDE, 0, 1, 0x10, '0', 0, 0, 1, 2, 3}, false)
+	f.Add([]byte{0x81, 201, 0, 7, 0, 0, 0, 1, 0, 0, 0, 2, 0, 0, 0, 0, 0, 0, 0, 0, 0, 0, 0, 0, 0, 0, 0, 0, 0, 0, 0, 0}, true)
+	f.Fuzz(func(t *testing.T, b []byte, rtcp bool) {
+		p := &c30FuzzPair
+		p.once.Do(func() {
+			c := &c30Child{count: map[string]int{}}
+			c.out, _ = os.OpenFile(os.DevNull, os.O_WRONLY, 0)
+			c.cur, _ = os.OpenFile(os.DevNull, os.O_WRONLY, 0)
+			a, v := c.newPeer(c30PCOpt{Sem: SDPSemanticsUnifiedPlan, Icpt: 2}), c.newPeer(c30PCOpt{Sem: SDPSemanticsUnifiedPlan, Icpt: 2})
+			c.setup(a, 2)
+			c.setup(v, 2)
+			if _, _, err := rigExchange(a.pc, v.pc, nil, nil); err != nil || !rigWaitConnected(10*time.Second, a.pc, v.pc) {
+				return
+			}
+			s1, e1 := a.pc.dtlsTransport.getSRTPSession()
+			s2, e2 := a.pc.dtlsTransport.getSRTCPSession()
+			if e1 != nil || e2 != nil {
+				return
+			}
+			w1, _ := s1.OpenWriteStream()
+			w2, _ := s2.OpenWriteStream()
+			p.rtp, p.rtcp = w1, w2
+		})
+		if p.rtp == nil || len(b) < 12 {
+			t.Skip()
+		}
+		b = append([]byte{}, b...)
+		b[0] = b[0]&0x3f | 0x80
+		p.mu.Lock()
+		defer p.mu.Unlock()
+		if rtcp {
+			_, _ = p.rtcp.Write(b)
+		} else {
+			p.seq++ // monotonic sequence numbers get past SRTP replay protection
+			b[2], b[3] = byte(p.seq>>8), byte(p.seq)
+			_, _ = p.rtp.Write(b)
+		}
+		time.Sleep(200 * time.Microsecond)
+	})
 }
